@@ -250,7 +250,7 @@ func (pr *PropRun) writeReport(eng *Engine, ro reportOpts) int {
 	cov := map[string]interface{}{
 		"obligations":  total - nKnown,
 		"discharged":   ok,
-		"checker_cmd":  fmt.Sprintf("/verif/bin/pgoverify check -prop %s -tier %s (VCs generated from /repo's working tree by go/ssa; each obligation raced on z3-new, z3, cvc5; timeout %ds)", ro.prop, ro.tier, eng.timeoutS),
+		"checker_cmd":  fmt.Sprintf("/verif/bin/pgoverify check -prop %s -tier %s (VCs generated from /repo's working tree by go/ssa; each obligation is tried first on the subset of its freshly generated hypotheses named by hints.json — back ends marked +hint; thorough tier: +confirmed:<solver of the other family> —, then in full on z3-new, z3, cvc5 and a seed/option portfolio; timeout %ds per solver run)", ro.prop, ro.tier, eng.timeoutS),
 		"trusted_base": tb,
 		"samples":      samples,
 		"functions_under_contract": funcs,
